@@ -18,6 +18,9 @@ def check(ctx):
     rep.floor("calls to unsafe fns in c_api", nuns, 100)
     # N2 (null is reported) shares the error dataflow with C17
     ffi.check_errors(ctx, rep)
+    ffi.check_internal_calls_of_owning_functions(ctx, rep)
+    ffi.check_verb_delegation(ctx, rep)
+    ffi.check_c_string_conversions(ctx, rep)
     nn4 = ffi.check_null_reported_on_every_path(ctx, rep)
     rep.floor("pointer arguments whose null test precedes every plain return (N4)", nn4, 98)
     pr = panic.PanicRule(ctx)
